@@ -1035,6 +1035,7 @@ impl<SP: StorageProvider> Run<'_, SP> {
         self.log.push(desc.to_string());
         let res = self.action(&aname, args);
         self.m.eval();
+        self.m.seen("probe_modes", mode_s);
         let effects = match res {
             Ok(e) => e,
             Err(e) => {
@@ -1264,7 +1265,7 @@ fn run_history<SP: StorageProvider>(
 
 fn run_one(m: &mut Monitor, hist_seed: u64, nops: u64, libc: bool) {
     if libc {
-        let dir = Scratch::new("polfacts");
+        let dir = Scratch::new(&format!("polfacts-{hist_seed:x}"));
         let fm = match FileManager::new(dir.path()) {
             Ok(f) => f,
             Err(e) => {
@@ -1306,8 +1307,8 @@ fn main() {
     }
 
     let threads = cores();
-    let hist_per_shard = args.n(6, 60);
-    let nops = args.n(500, 1500);
+    let hist_per_shard = args.n(20, 500);
+    let nops = args.n(600, 1500);
     let base = Rng::new(args.seed).fork(29);
     let thorough = args.tier == Tier::Thorough;
     let results = par_shards(threads, |i, _n| {
